@@ -241,6 +241,19 @@ def run(tier):
             for mode in ("none", "zod"):
                 jobs.append((cli, "%s/%s/SoloMsg" % (site, plabel), site_project(site, t, extra_defs=solo), mode,
                              {"site": site, "position": plabel, "kind": "only-reachable-through-this-site", "type": t}))
+    # ... and that is defined below an inline module, or in the second inline module of its file
+    ind = lambda text: "".join("    " + ln + "\n" if ln else "\n" for ln in text.rstrip("\n").split("\n"))
+    layouts = {"after-an-inline-module": "pub mod helpers {\n    pub fn noop() {}\n    pub struct NotSerde;\n}\n\n" + solo,
+               "in-the-second-inline-module": "pub mod first {\n    use super::*;\n%s}\n\npub mod second {\n    use super::*;\n%s}\npub use second::*;\n\n" % (
+                   ind(rg.struct_src("SoloInner", [("n", "i32")])), ind(rg.struct_src("SoloMsg", [("inner", "SoloInner"), ("items", "Vec<SoloInner>")]))),
+               "after-a-cfg-gated-inline-module": "#[cfg(not(test))]\npub mod live {\n    pub fn noop() {}\n}\n\n#[cfg(feature = \"x\")]\npub mod extra {\n    pub struct Unused;\n}\n\n" + solo}
+    for lname, ldefs in layouts.items():
+        for (plabel, pf) in positions[:4]:
+            t = pf(rg.N("SoloMsg"))
+            for site in SITES:
+                for mode in ("none", "zod"):
+                    jobs.append((cli, "%s/%s/SoloMsg/%s" % (site, plabel, lname), site_project(site, t, extra_defs=ldefs), mode,
+                                 {"site": site, "position": plabel, "kind": "defined-" + lname, "type": t}))
     # ... and that is mentioned only behind a reference nested inside another type (borrowed view structs)
     for text in ("Vec<&'static SoloMsg>", "Option<&'static SoloMsg>", "HashMap<&'static str, &'static SoloMsg>", "(&'static SoloMsg, u32)", "Vec<&SoloMsg>",
                  "&'static Vec<&'static SoloMsg>", "Result<Vec<&'static SoloMsg>, String>", "Option<&'static mut SoloMsg>", "&'static &'static SoloMsg"):
